@@ -6,6 +6,7 @@ namespace {
 
 // ================================================================================================ C16 DelayedDestructor
 struct Obj16;
+struct ScopedDepth { int& d; explicit ScopedDepth(int& x) : d(x) { ++d; } ~ScopedDepth() { --d; } };
 struct Info16 {
     int id = 0; int destroyed = 0; int callbacks = 0; int entries = 0;
     std::shared_ptr<Obj16> ext;
@@ -21,6 +22,8 @@ struct Ctx16 {
     bool has_mutex = true;
     long live_entries = 0;              // model: entries currently in the container
     int destroys_in_flight = 0;
+    bool with_cb = false, faults = false;
+    int in_destroy[vrt::MAXF] = {0};   // per fiber: depth of destroyObjects calls in progress
     bool lbl_reentered = false, lbl_dtor_in_container_dtor = false, lbl_timeout = false, lbl_concurrent_destroy = false, lbl_shared_survived = false; int lbl_batch = 0;
     Info16& fresh(int reenter) { infos.emplace_back(); infos.back().id = (int)infos.size() - 1; infos.back().reenter = reenter; return infos.back(); }
 };
@@ -38,6 +41,9 @@ struct Obj16 {
         if (vrt::rt().cur && vrt::me().held != 0) vrt::fail("destructor-under-lock", "an element destructor ran while the calling thread holds the container's lock");
         X.live_entries -= info->entries; info->entries = 0;
         if (!X.container_alive) { X.lbl_dtor_in_container_dtor = true; return; }
+        // destroyed by the thread that is inside destroyObjects, i.e. reaped by that call: its callback must have run first
+        if (X.with_cb && !X.faults && vrt::rt().cur && X.in_destroy[vrt::self()] > 0 && info->callbacks == 0)
+            vrt::fail("callback-missing", "an object was reaped by destroyObjects without its pre-destruction callback");
         vrt::step();
         if (info->reenter && X.container_alive) {
             X.lbl_reentered = true;
@@ -75,7 +81,8 @@ vh::Outcome run_c16(const vh::Case& c, bool concurrent, bool locked_class) {
             std::unique_ptr<DD> dd(with_cb ? new DD(cb) : new DD());
             X.container_alive = true;
             X.do_size = [&] { return (size_t)dd->size(); };
-            X.do_destroy = [&] { return dd->destroyObjects(); };
+            X.with_cb = with_cb; X.faults = faults;
+            X.do_destroy = [&] { ScopedDepth sd(X.in_destroy[vrt::self()]); return dd->destroyObjects(); };
             X.do_add = [&](std::shared_ptr<Obj16> p) { dd->addObjectsToBeDestroyed(std::move(p)); };
             auto run_ops = [&](const std::vector<vh::Op>& ops) {
                 for (auto& op : ops) {
@@ -117,8 +124,11 @@ vh::Outcome run_c16(const vh::Case& c, bool concurrent, bool locked_class) {
                         X.destroys_in_flight++; destroy_calls++;
                         long tf0 = vrt::me().timed_failures;
                         size_t r;
-                        if (kind == 4) r = dd->destroyObjects();
-                        else { static const int delays[4] = {0, 3, 60, 120}; r = dd->destroyObjects(std::chrono::milliseconds(delays[op.b % 4])); }
+                        {
+                            ScopedDepth sd(X.in_destroy[vrt::self()]);
+                            if (kind == 4) r = dd->destroyObjects();
+                            else { static const int delays[4] = {0, 3, 60, 120}; r = dd->destroyObjects(std::chrono::milliseconds(delays[op.b % 4])); }
+                        }
                         X.destroys_in_flight--;
                         if (X.destroys_in_flight > 0) overlapped = true;
                         bool timed_out = vrt::me().timed_failures != tf0;
@@ -226,7 +236,7 @@ vh::Outcome run_c16t(const vh::Case& c) {
 // ================================================================================================ C17 SearchableObjectHolder
 struct Obj17 { int id; uint32_t canary = 0x0B1EC7; explicit Obj17(int i) : id(i) {} ~Obj17() { canary = 0; } };
 using SOH = gc::SearchableObjectHolder<Obj17, int>;
-const char* NAMES[] = {"a", "b", "c", "d", "x", "y"};   // x, y are reserved: pre-added, targets of addType, never removed
+const char* NAMES[] = {"a", "b", "c", "", "x", "y"};     // (the empty string is a legal name)   // x, y are reserved: pre-added, targets of addType, never removed
 
 enum K17 { S_ADD, S_ADDT, S_ADDTYPE, S_COPY, S_REMOVE, S_REMOVEP, S_FIND, S_FINDP, S_FINDPT, S_CHECKTYPE, S_GETOBJS, S_EMPTY, S_NK, S_FINAL };
 struct Ent17 { int id; bool has_tags; std::vector<int> tags; };
